@@ -2620,6 +2620,52 @@ class Interp:
                 yield res, s2.setfield(key, new).effect(eff)
             return
         if isinstance(f, ast.Attribute) and isinstance(f.value, ast.Subscript) \
+                and isinstance(f.value.value, ast.Attribute) \
+                and isinstance(f.value.value.value, ast.Name) and f.value.value.value.id == 'self' \
+                and isinstance(st.env.get('self'), ObjRef) \
+                and isinstance(st.fields.get(('self', f.value.value.attr)), (Tup, DictV)) \
+                and f.attr in self.OTHER_MUTATORS and not node.keywords \
+                and not any(isinstance(a, ast.Starred) for a in node.args) \
+                and self.hooks.field(st.env['self'], f.value.value.attr, st) is None:
+            # self.table[k].append(x): the inner container of a field-held container changes in
+            # place; exact for a known position, otherwise the field is forgotten (never stale)
+            key = ('self', f.value.value.attr)
+            for idx, s1 in self.ev(f.value.slice, st):
+                if s1.raised:
+                    yield None, s1
+                    continue
+                for args, s2 in self.ev_seq(list(node.args), s1):
+                    if s2.raised:
+                        yield None, s2
+                        continue
+                    outer = s2.fields[key]
+                    idx_ = num_of(idx)
+                    new_outer, res = None, NONE
+                    if isinstance(outer, Tup) and isinstance(idx_, Sym) and idx_.is_const() and \
+                            idx_.const_value().denominator == 1 and \
+                            -len(outer.items) <= int(idx_.const_value()) < len(outer.items) and \
+                            isinstance(outer.items[int(idx_.const_value())], (Tup, DictV)):
+                        k_ = int(idx_.const_value())
+                        res, new_inner = self._mutated(outer.items[k_], f.attr, args, {})
+                        if res == 'raise':
+                            yield None, s2.raising(new_inner)
+                            continue
+                        if new_inner is not None:
+                            items = list(outer.items)
+                            items[k_] = new_inner
+                            new_outer = Tup(tuple(items), outer.kind)
+                    eff = Effect('call', Bound(Opaque('item', (Opaque('self.' + key[1], (), 'list'),
+                                                                idx), 'list'), f.attr),
+                                 tuple(args), node.lineno, self.cur.qualname)
+                    if new_outer is None:
+                        ty = 'dict' if isinstance(outer, DictV) else 'list'
+                        yield Opaque('m:' + f.attr, (outer, idx) + tuple(args)), s2.setfield(
+                            key, Opaque('havoc:self.%s@%d' % (key[1], node.lineno), (), ty)
+                        ).effect(eff)
+                        continue
+                    yield res, s2.setfield(key, new_outer).effect(eff)
+            return
+        if isinstance(f, ast.Attribute) and isinstance(f.value, ast.Subscript) \
                 and isinstance(f.value.value, ast.Name) \
                 and isinstance(st.env.get(f.value.value.id), (Tup, DictV)) \
                 and f.attr in self.OTHER_MUTATORS and not node.keywords \
